@@ -1005,7 +1005,13 @@ def _choose_write(W, tape, writes):
     else:
         name = tape.choice(["out.cnn", "sub/dir/out.cnn", "other.cns"], "wr.path")
     prepop = tape.choice(PREPOP, "wr.prepop")
-    return [e], {"name": name, "prepop": prepop, "times": tape.weighted(
+    # a third of the write steps go through a command that promises not to overwrite
+    # (`cnvkit.py reference ... -o PATH`: ensure_path + tabio.write inside commands.py)
+    via_cli = tape.chance(1, 3, "wr.cli")
+    ents = [e]
+    if via_cli:
+        ents = [W.pick(tape, "tcov", label="wr.tcov"), W.pick(tape, "acov", label="wr.acov")]
+    return ents, {"name": name, "prepop": prepop, "cli": via_cli, "times": tape.weighted(
         [(1, 3), (2, 2), (3, 2), (5, 1)], "wr.times")}
 
 
@@ -1052,21 +1058,39 @@ def _do_write_step(W, ents, params, writes, ctx, simfs, D):
         if params["prepop"] != "none":
             prepopulate(os.path.dirname(path), os.path.basename(name), params["prepop"])
     first = simfs.snapshot_dir(root)
+    argv = None
+    if params.get("cli"):
+        from cnvlib import commands
+        indir = os.path.join(os.path.dirname(root), "cli-in")
+        os.makedirs(indir, exist_ok=True)
+        tp = os.path.join(indir, "S1.targetcoverage.cnn")
+        ap = os.path.join(indir, "S1.antitargetcoverage.cnn")
+        ents[0].obj.data.to_csv(tp, sep="\t", index=False, float_format="%.6g")
+        ents[1].obj.data.to_csv(ap, sep="\t", index=False, float_format="%.6g")
+        argv = ["reference", tp, ap, "-o", path]
+        ctx.probe("write.via_cli_reference")
     for _k in range(params.get("times", 1)):
         before = simfs.snapshot_dir(root)
         try:
-            core.ensure_path(path)
-            tabio.write(ents[0].obj, path)
-        except Exception as exc:  # noqa: BLE001
-            raise Violation("W1", "C10/W1/raises", f"write to {name} raised {type(exc).__name__}: {exc}")
+            if argv:
+                cargs = commands.parse_args(argv)
+                cargs.func(cargs)
+            else:
+                core.ensure_path(path)
+                tabio.write(ents[0].obj, path)
+        except (Exception, SystemExit) as exc:  # noqa: BLE001
+            raise Violation("W1", "C10/W1/raises", f"write to {name} "
+                            f"{'via cnvkit.py reference -o ' if argv else ''}raised {type(exc).__name__}: {exc}")
         after = simfs.snapshot_dir(root)
         msg = check_w1(before, after, name)
         writes.paths[name] = writes.paths.get(name, 0) + 1
         if writes.paths[name] > 1:
             ctx.probe("write.repeated")
         if msg:
-            raise Violation("W1", "C10/W1", f"write #{writes.paths[name]} to {name} "
-                                            f"(pre-populated: {params['prepop']}): {msg}")
+            raise Violation("W1", "C10/W1" + ("/cli" if argv else ""),
+                            f"write #{writes.paths[name]} to {name} "
+                            f"{'via cnvkit.py reference -o ' if argv else ''}"
+                            f"(pre-populated: {params['prepop']}): {msg}")
     ctx.probe("write.prepop." + params["prepop"])
     # k writes leave k more files, and nothing that was there before is gone
     if len(after) != len(first) + params.get("times", 1):
@@ -1078,6 +1102,8 @@ def _do_write_step(W, ents, params, writes, ctx, simfs, D):
         ctx.probe("write.suffix_gt_1")
     if suffixes and suffixes != list(range(1, len(suffixes) + 1)):
         ctx.probe("write.suffix_gap")
+    if argv:
+        return
     # the written table reads back as the object's table
     try:
         back = tabio.read(path, into=type(ents[0].obj))
